@@ -135,9 +135,9 @@ static void case_agree(const Spec3& spec) {
 // points with status and coordinates, parameters.  No adjustment is involved (export_xml does not need one).
 static int okind(Observation* o) { if (dynamic_cast<Direction*>(o)) return 0; if (dynamic_cast<S_Distance*>(o)) return 1; if (dynamic_cast<Z_Angle*>(o)) return 2; if (dynamic_cast<Distance*>(o)) return 3;
   if (dynamic_cast<Angle*>(o)) return 4; if (dynamic_cast<H_Diff*>(o)) return 5; if (dynamic_cast<Azimuth*>(o)) return 6; return 9; }
-static void case_export_description(bool obs_level_ih) {
+static void case_export_description(bool obs_level_ih, const std::string& axes = "ne", const std::string& handed = "left-handed", bool covmat = false) {
   std::ostringstream o;
-  o << "<?xml version=\"1.0\" ?>\n<gama-local xmlns=\"http://www.gnu.org/software/gama/gama-local\">\n<network>\n<description>export of instrument and target heights</description>\n"
+  o << "<?xml version=\"1.0\" ?>\n<gama-local xmlns=\"http://www.gnu.org/software/gama/gama-local\">\n<network axes-xy=\"" << axes << "\" angles=\"" << handed << "\">\n<description>export of instrument and target heights</description>\n"
     << "<parameters sigma-apr=\"10\" conf-pr=\"0.95\" tol-abs=\"1000\" sigma-act=\"apriori\" />\n<points-observations>\n"
     << "<point id=\"S\" x=\"1000\" y=\"2000\" z=\"300\" fix=\"xyz\" />\n<point id=\"T1\" x=\"1090\" y=\"2120\" z=\"500\" adj=\"xyz\" />\n<point id=\"T2\" x=\"1120\" y=\"1840\" z=\"450\" adj=\"xyZ\" />\n<point id=\"T4\" x=\"880\" y=\"1910\" z=\"500\" fix=\"xy\" adj=\"z\" />\n"
     << "<obs from=\"S\"" << (obs_level_ih ? " from_dh=\"1.5\"" : "") << ">\n"
@@ -146,7 +146,10 @@ static void case_export_description(bool obs_level_ih) {
     << "<s-distance to=\"T2\" val=\"260\" stdev=\"6\" from_dh=\"1.6\" to_dh=\"1.2\" />\n<z-angle to=\"T2\" val=\"60\" stdev=\"13\" from_dh=\"1.6\" to_dh=\"1.2\" />\n"
     << "<distance to=\"T2\" val=\"200\" stdev=\"7\" />\n"
     << "<angle bs=\"T1\" fs=\"T2\" val=\"110\" stdev=\"14\" from_dh=\"1.5\" bs_dh=\"1.1\" fs_dh=\"1.2\" />\n"
-    << "<azimuth to=\"T4\" val=\"250\" stdev=\"15\" />\n</obs>\n"
+    << "<azimuth to=\"T4\" val=\"250\" stdev=\"15\" />\n";
+  // a banded covariance matrix for the station (units of the input: cc^2, mm^2): diagonal = squares of the standard deviations above
+  if (covmat) { int sd[9] = {10, 11, 5, 12, 6, 13, 7, 14, 15}; o << "<cov-mat dim=\"9\" band=\"1\">\n"; for (int i = 0; i < 9; i++) { o << sd[i] * sd[i]; if (i < 8) o << " " << (i % 2 ? -1 : 1) * (sd[i] * sd[i + 1]) / 4; o << "\n"; } o << "</cov-mat>\n"; }
+  o << "</obs>\n"
     << "<height-differences>\n<dh from=\"T1\" to=\"T2\" val=\"-50\" stdev=\"3\" />\n<dh from=\"T2\" to=\"T4\" val=\"50\" dist=\"0.8\" />\n</height-differences>\n"
     << "</points-observations>\n</network>\n</gama-local>\n";
   Net a; if (!a.parse(o.str())) { sx::fail("generated input rejected by the parser", a.parse_error + " line " + std::to_string(a.parse_line)); return; }
@@ -161,12 +164,16 @@ static void case_export_description(bool obs_level_ih) {
     else if (kd == 4) { Angle* an = static_cast<Angle*>(ob); an->set_from_dh(h1); an->set_bs_dh(h2); an->set_fs_dh(h3); }
     else if (kd == 0 || kd == 3 || kd == 6) { if (obs_level_ih) ob->set_from_dh(h1); } }
   LocalNetwork* A = a.IS.get(); std::vector<Observation*> prev = oa;
+  if (covmat) { auto c = A->OD.clusters.begin(); sx::check_true(c != A->OD.clusters.end() && (*c)->covariance_matrix.dim() == 9 && (*c)->covariance_matrix.bandWidth() == 1, "the covariance matrix of the station was read with band 1", ""); }
+  A->remove_inconsistency();                                        // as gama-local does before adjusting; export happens in this state
+  { Real x = sx::input("x1"), y = sx::input("y1"), z = sx::input("z1"); for (Real c : {x, y, z}) sx::assume_range(c, Q(-5000), Q(5000)); LocalPoint& p = A->PD[PointID("T1")]; p.set_xy(x, y); p.set_z(z); }
   std::vector<std::unique_ptr<Net>> keep;
   for (int round = 1; round <= 2; round++) { std::string t = "export round " + std::to_string(round);
     std::string xml = A->export_xml();
     if (const char* d = getenv("SX_DUMP_GKF")) { static int n = 0; std::ofstream f(std::string(d) + ".export" + std::to_string(++n) + ".gkf"); f << xml; }
     keep.emplace_back(new Net); Net& b = *keep.back();
     if (!b.parse(xml)) { sx::fail(t + ": exported file is rejected by the parser", b.parse_error + " line " + std::to_string(b.parse_line)); return; }
+    b.IS->remove_inconsistency();
     std::vector<Observation*> ob = b.all_obs(); sx::check_true(ob.size() == prev.size(), t + ": same number of observations", std::to_string(ob.size())); if (ob.size() != prev.size()) return;
     for (size_t k = 0; k < ob.size(); k++) { Observation* p = prev[k]; Observation* q = ob[k]; std::string l = t + ": observation " + std::to_string(k + 1) + " "; int kd = okind(p);
       sx::check_true(okind(q) == kd && q->from().str() == p->from().str() && q->to().str() == p->to().str(), l + "has the same type and end points", "");
@@ -183,6 +190,12 @@ static void case_export_description(bool obs_level_ih) {
       sx::check_true(p.fixed_xy() == q.fixed_xy() && p.free_xy() == q.free_xy() && p.constrained_xy() == q.constrained_xy() && p.fixed_z() == q.fixed_z() && p.free_z() == q.free_z() && p.constrained_z() == q.constrained_z(), l + "status", "");
       sx::check_true(p.test_xy() == q.test_xy() && p.test_z() == q.test_z(), l + "coordinates present", "");
       if (p.test_xy() && q.test_xy()) { sx::check_eq(p.x(), q.x(), l + "x"); sx::check_eq(p.y(), q.y(), l + "y"); } if (p.test_z() && q.test_z()) sx::check_eq(p.z(), q.z(), l + "z"); }
+    { auto ca = A->OD.clusters.begin(); auto cb = B->OD.clusters.begin(); int k = 0;
+      for (; ca != A->OD.clusters.end() && cb != B->OD.clusters.end(); ++ca, ++cb) { k++; const auto& CA = (*ca)->covariance_matrix; const auto& CB = (*cb)->covariance_matrix; std::string l = t + ": cluster " + std::to_string(k) + " ";
+        sx::check_true(CA.dim() == CB.dim() && CA.bandWidth() == CB.bandWidth(), l + "covariance matrix dimension and band", std::to_string(CB.dim()) + "/" + std::to_string(CB.bandWidth())); if (CA.dim() != CB.dim() || CA.bandWidth() != CB.bandWidth()) continue;
+        for (int i = 1; i <= (int)CA.dim(); i++) for (int j = i; j <= (int)std::min(CA.dim(), i + CA.bandWidth()); j++) sx::check_eq(CB(i, j), CA(i, j), l + "covariance " + std::to_string(i) + "," + std::to_string(j)); }
+      sx::check_true(ca == A->OD.clusters.end() && cb == B->OD.clusters.end(), t + ": same number of clusters", ""); }
+    sx::check_true(A->PD.local_coordinate_system == B->PD.local_coordinate_system && A->PD.left_handed_angles() == B->PD.left_handed_angles(), t + ": axes and angle orientation", "");
     sx::check_eq(A->apriori_m_0(), B->apriori_m_0(), t + ": sigma-apr"); sx::check_eq(A->tol_abs(), B->tol_abs(), t + ": tol-abs"); sx::check_eq(A->conf_pr(), B->conf_pr(), t + ": conf-pr"); sx::check_true(A->m_0_apriori() == B->m_0_apriori(), t + ": sigma-act", "");
     A = B; prev = ob; }
   sx::reached("net3d-export");
@@ -211,7 +224,11 @@ static void gen_cases(const sx::Options& opt, std::vector<sx::Case>& cases) {
   //  0.1-0.2 m off and gama-local needs several re-linearisations, which the exact engine cannot follow)
   if (on("C06")) { int k = 0; for (auto& s : specs) for (int omit = 0; omit < 2; omit++) { if (omit && s.name != "polar-plain") continue; int alg = (k++) % 3; auto sp = std::make_shared<Spec3>(s);
       add("net3d/consistent/" + s.name + "/" + ALGS[alg] + (omit ? "/acord" : "/given"), "spatial networks", [sp, alg, omit] { case_consistent(*sp, alg, omit != 0); }); } }
-  if (on("C13")) for (int v = 0; v < 2; v++) add(std::string("net3d/export-description/") + (v ? "station-height" : "sight-heights"), "spatial networks", [v] { case_export_description(v != 0); });
+  if (on("C13")) { for (int v = 0; v < 2; v++) add(std::string("net3d/export-description/") + (v ? "station-height" : "sight-heights"), "spatial networks", [v] { case_export_description(v != 0); });
+    add("net3d/export-description/station-height-covmat", "spatial networks", [] { case_export_description(true, "ne", "left-handed", true); });
+    add("net3d/export-description/sight-heights@en", "spatial networks", [] { case_export_description(false, "en", "left-handed", false); });
+    add("net3d/export-description/station-height-covmat@sw-right", "spatial networks", [] { case_export_description(true, "sw", "right-handed", true); });
+    if (th) { add("net3d/export-description/sight-heights-covmat@nw", "spatial networks", [] { case_export_description(false, "nw", "left-handed", true); }); add("net3d/export-description/station-height@es-right", "spatial networks", [] { case_export_description(true, "es", "right-handed", false); }); } }
   if (on("C01") || on("C02")) for (auto& s : specs) { if (!th && s.name == "polar-plain") continue; auto sp = std::make_shared<Spec3>(s); add("net3d/agree/" + s.name, "spatial networks", [sp] { case_agree(*sp); }); }
 }
 int main(int argc, char** argv) { GNU_gama::local::set_gama_language(GNU_gama::local::en); return sx::run_main(argc, argv, "net3d", gen_cases); }
